@@ -7,6 +7,7 @@ CONSTANTS
   FixDrift = TRUE
   WithEnv = FALSE
   FsExact = TRUE
+  EarlyVerify = FALSE
   ILen <- MCILen
 INVARIANT Invs
 CHECK_DEADLOCK FALSE
